@@ -10,10 +10,9 @@
   so the theorem is unconditional for physical registers; for virtual registers and labels the hypothesis is the decidable
   "the name resolves and collides with nothing" (evaluated by the monitor on every run).
 
-  Still monitored only (see notes/C20.md): AArch64 memory operands (the text is proved to be the glued piece list,
-  `a64FormatMem_eq`, the reader's case analysis is not finished), whole instruction lines, named labels, virtual registers.
+  `a64_mem_parse_back` is the AArch64 counterpart (offset / pre / post index / register index with extend and shift).
 -/
-import AsmjitVerif.Lemmas.FormatA64Mem
+import AsmjitVerif.Lemmas.FormatA64MemRead
 
 namespace AsmjitVerif.Props.C20
 open AsmjitVerif.Format AsmjitVerif.FormatText AsmjitVerif.Lemmas.FormatLex AsmjitVerif.Lemmas.FormatX86Mem
@@ -69,9 +68,43 @@ example : x86FormatMem ffHexOffsets envX64 memEx = "dword ptr fs:[rax+rcx*4-0x80
 example (flags : Nat) : monOperand envX64 (.x86mem memEx) (formatOperand flags envX64 (.x86mem memEx)) = true :=
   x86_mem_parse_back flags envX64 (by decide) memEx (memEx_wf flags)
 
-/-- AArch64: the memory operand text is exactly its piece list glued together (first half of the parse-back argument) -/
-theorem a64_mem_text_is_pieces (flags : Nat) (env : Env) (m : A64Mem) :
-    a64FormatMem flags env m = flattenPieces (AsmjitVerif.Lemmas.FormatA64Mem.pieces flags env m) :=
-  AsmjitVerif.Lemmas.FormatA64Mem.a64FormatMem_eq flags env m
+/-! ## AArch64 memory operands -/
+
+open AsmjitVerif.Lemmas.FormatA64Mem in
+/-- every architecturally named AArch64 register (`w0..w30, wsp, wzr, x0..x30, sp, xzr, b/h/s/d/q0..31`) is a name the reader
+    resolves to exactly that register, for every emitter state -/
+theorem a64_phys_reg_readable (env : Env) (harch : env.arch = Arch.a64) (t id : Nat) (n : Str) (hp : (t, id, n) ∈ a64Regs) :
+    RegOK env (armFormatRegister env t id) t id := a64_phys_regOK env harch t id n hp
+
+open AsmjitVerif.Lemmas.FormatA64Mem in
+/-- the text of every well-formed AArch64 memory operand — `[b]`, `[b, off]`, `[b, off]!`, `[b], off` (pre/post index, signed and
+    hexadecimal offsets), `[b, x]`, `[b, x ext]`, `[b, x ext n]` (all 14 shift/extend operations incl. amount 0), `[b], x` —
+    reads back to the operand given, for every flag combination -/
+theorem a64_mem_parse_back (flags : Nat) (env : Env) (harch : env.arch = Arch.a64) (m : A64Mem) (wf : WFA64Mem env m) :
+    monOperand env (.a64mem m) (formatOperand flags env (.a64mem m)) = true := by
+  have htext : formatOperand flags env (.a64mem m) = a64FormatMem flags env m := by
+    unfold formatOperand; rw [harch]; rfl
+  have hhead : (a64FormatMem flags env m).head? = some '[' := by unfold a64FormatMem; simp
+  have hparse : parseOp env (a64FormatMem flags env m) = some (.mem (finalRes env m)) := by
+    unfold parseOp; rw [harch]
+    simp only [parseA64Op, hhead, if_true, a64_mem_read flags env m wf, Option.map_some]
+  unfold monOperand
+  rw [htext, hparse]
+  simp only [opAgrees]
+  exact a64_mem_agrees env m wf
+
+def envA64 : Env := { arch := .a64, labels := some [], vregs := none }
+/-- `[x1, w2 uxtw]` — the operand whose extend the pinned formatter dropped (fixes/C20-1) -/
+def memA64Ex : A64Mem := { base := .reg 6 1, index := some (5, 2), shiftOp := 8, shift := 0, off := 0, mode := 0, home := false }
+
+open AsmjitVerif.Lemmas.FormatA64Mem in
+theorem memA64Ex_wf : WFA64Mem envA64 memA64Ex where
+  base := a64_phys_regOK envA64 rfl 6 1 "x1".toList (by decide +kernel)
+  index := a64_phys_regOK envA64 rfl 5 2 "w2".toList (by decide +kernel)
+  form := Or.inr (Or.inl ⟨by decide, by decide, by decide, by decide, by decide⟩)
+
+example : a64FormatMem 0 envA64 memA64Ex = "[x1, w2 uxtw]".toList := by decide +kernel
+example (flags : Nat) : monOperand envA64 (.a64mem memA64Ex) (formatOperand flags envA64 (.a64mem memA64Ex)) = true :=
+  a64_mem_parse_back flags envA64 rfl memA64Ex memA64Ex_wf
 
 end AsmjitVerif.Props.C20
